@@ -2,10 +2,28 @@
    model/Stacked.v on what was recorded from one call of Simultaneous.simulate and returns the identifiers of the
    checks on which model and implementation differ.  Data cells are IEEE doubles (PrimFloat), compared bit-wise
    up to NaN = NaN. *)
-From Coq Require Import ZArith List Bool PrimFloat.
-From Verif Require Import lib.Arith lib.CaseUtil gen.FramesGen model.Frames model.Stacked.
+From Coq Require Import ZArith List Bool PrimFloat Uint63.
+From Verif Require Import gen.FramesGen model.Frames model.Stacked.
 Import ListNotations.
 Open Scope Z_scope.
+
+(* (kept local so that a case file loads neither the real numbers nor the Series model) *)
+Definition opt_eqb {T} (e : T -> T -> bool) (a b : option T) : bool :=
+  match a, b with Some x, Some y => e x y | None, None => true | _, _ => false end.
+
+Fixpoint list_eqb {T} (e : T -> T -> bool) (a b : list T) : bool :=
+  match a, b with
+  | [], [] => true
+  | x :: xs, y :: ys => e x y && list_eqb e xs ys
+  | _, _ => false
+  end.
+
+Definition float_of_Z (z : Z) : float :=
+  match z with
+  | Z0 => 0%float
+  | Zpos _ => PrimFloat.of_uint63 (Uint63.of_Z z)
+  | Zneg p => PrimFloat.opp (PrimFloat.of_uint63 (Uint63.of_Z (Zpos p)))
+  end.
 
 Definition fzero : float := float_of_Z prune_value.
 
@@ -77,6 +95,8 @@ Record sim_case := mkSimCase {
   c_pbp : bool;
   c_base_periods : list Z;
   c_base_columns : list Z;
+  c_shifts : Z * Z;                      (* deepest lag / lead over all quantities, from the model source *)
+  c_periods : list Z;                    (* periods of the dataslate *)
   c_ucut : option arr;
   c_pcut : option (list (list bool));
   c_frames : list frame_obs;
@@ -149,7 +169,9 @@ Definition check_sim (c : sim_case) : list (nat * nat) :=
   let S := c_setup c in
   let fs := model_frames c in
   let run := check_frames S (apply_diff (c_main0 c) (c_input_diff c)) (c_main0 c) fs (c_frame_recs c) 0 in
-  (if zs_eqb (map (fun p => p - s_fcp S) (c_base_periods c)) (c_base_columns c) then [] else [(999%nat, 1%nat)])
+  (if zs_eqb (extended_periods (hd 0 (c_base_periods c)) (last (c_base_periods c) 0) (fst (c_shifts c)) (snd (c_shifts c)))
+             (c_periods c) && (hd 0 (c_periods c) =? s_fcp S) then [] else [(999%nat, 4%nat)])
+  ++ (if zs_eqb (map (column_of (s_fcp S)) (c_base_periods c)) (c_base_columns c) then [] else [(999%nat, 1%nat)])
   ++ (if Nat.eqb (length fs) (length (c_frames c)) && forallb (fun fo => frame_matches (s_fcp S) (fst fo) (snd fo))
                                                                (combine fs (c_frames c))
       then [] else [(999%nat, 2%nat)])
